@@ -39,8 +39,9 @@ Definition recv_fb (W : nat) (lease full : bool) (s : rstate) (w : wire) : rstat
   else
   if negb (r_init s) then (enqueue lease s w, [])
   else if negb (len (r_cid s) =? 0) && negb (w_ctype w =? ct_cid) then (s, [])
-  else if w_ctype w =? ct_ccs then
-    gated full s (ccs_view (w_clear w)) (dispatch W lease s w (ccs_view (w_clear w)))
+  (* ae10e63: a change_cipher_spec-typed record claiming a protected epoch is never authenticated (every
+     suite's Decrypt returns it unchanged): discarded, whatever its body *)
+  else if w_ctype w =? ct_ccs then (s, [])
   else match w_auth w with
        | None => (s, [])
        | Some c =>
@@ -73,7 +74,7 @@ Definition undecodable (d : dgram) : Prop :=
 (* the content a record is dispatched with, when it gets that far *)
 Definition disp_content (w : wire) : content :=
   if w_epoch w =? 0 then w_clear w
-  else if w_ctype w =? ct_ccs then ccs_view (w_clear w)
+  else if w_ctype w =? ct_ccs then CBad
   else match w_auth w with Some c => c | None => CBad end.
 
 (* a non-fatal alert: warning level, description other than close_notify *)
@@ -85,13 +86,14 @@ Definition is_warning (c : content) : bool :=
 
 (* [est]: the handshake has completed.
    conn.go handleRecordContent (d95e20d): once established an UNPROTECTED (epoch 0) alert - fatal, close_notify
-   or warning - is discarded: no mark, no reply, no close, no Read error (Recv.unprotected_alert / Recv.recv_est).
+   or warning - is discarded: no mark, no reply, no close, no Read error (Recv.unprotected_alert / Recv.recv_est);
+   handleChangeCipherSpecRecord (ae10e63): so is an unprotected change_cipher_spec (Recv.unprotected_ccs).
    conn.go classifyReadLoopError: a fatal alert or close_notify closes; a NON-fatal alert is handed to Read
    once established (only a protected one gets that far) and IGNORED while the handshake is running
    (readLoopContinue) - nobody reads c.decrypted (capacity 1) before establishment.  Rec/Recv.v's [recv] is the
    behaviour while the handshake runs, except that its OErr for a warning alert is the established one. *)
 Definition recv_conn (W : nat) (lease full est : bool) (s : rstate) (w : wire) : rstate * list out :=
-  if est && unprotected_alert w then (s, []) else
+  if est && (unprotected_alert w || unprotected_ccs w) then (s, []) else
   let '(s', os) := recv_fb W lease full s w in
   if negb est && is_warning (disp_content w) then (s', filter (fun o => negb (is_err o)) os) else (s', os).
 
@@ -129,10 +131,10 @@ Definition recv_dgram (W : nat) (full est : bool) (s : rstate) (d : dgram) : rst
 
 (* ---------- forged input, and histories with forged input removed ---------- *)
 
-(* claims protection (non-zero epoch, not change_cipher_spec) and does not authenticate *)
+(* claims protection (non-zero epoch) and does not authenticate - ANY content type, change_cipher_spec
+   included since ae10e63 *)
 Definition forgedb (w : wire) : bool :=
-  negb (w_epoch w =? 0) && negb (w_ctype w =? ct_ccs) &&
-  match w_auth w with None => true | Some _ => false end.
+  negb (w_epoch w =? 0) && match w_auth w with None => true | Some _ => false end.
 
 Definition genuine_op (o : op) : bool :=
   match o with Arrive w => negb (forgedb w) | _ => true end.
